@@ -51,6 +51,7 @@ type c07case struct {
 	class       string
 	matrix      [][]float64
 	term        string
+	warm        []string // when set: the same model object first serves this other alignment (stale state must not leak)
 }
 
 func runDist(cs *c07case, cpus int) (mat [][]float64, class string) {
@@ -80,6 +81,15 @@ func runDist(cs *c07case, cpus int) (mat [][]float64, class string) {
 		rg := [4]int{-1, -1, -1, -1}
 		if cs.ranges != nil {
 			rg = *cs.ranges
+		}
+		if cs.warm != nil {
+			wn := make([]string, len(cs.warm))
+			for i := range wn {
+				wn[i] = fmt.Sprintf("w%d", i)
+			}
+			if wa, we := mkAlign(align.NUCLEOTIDS, wn, cs.warm); we == nil {
+				dna.DistMatrix(wa, nil, m, -1, -1, -1, -1, cs.gamma, cs.alpha.f(), 1)
+			}
 		}
 		mat, e = dna.DistMatrix(a, ws, m, rg[0], rg[1], rg[2], rg[3], cs.gamma, cs.alpha.f(), cpus)
 		return e
@@ -172,6 +182,30 @@ func genC07(r *rand.Rand) *c07case {
 	cs.model = r.Intn(7)
 	if mode == 6 && r.Intn(2) == 0 {
 		cs.model = 2
+	}
+	if cs.model <= 1 && r.Intn(2) == 0 {
+		// raw / p-distance: gaps and ambiguity codes (N above all) often facing each other, for the gap modes
+		for k := range cs.seqs {
+			b := []byte(cs.seqs[k])
+			for j := range b {
+				switch x := r.Intn(10); {
+				case x < 2:
+					b[j] = '-'
+				case x < 4:
+					b[j] = "NNNRYn"[r.Intn(6)]
+				}
+			}
+			cs.seqs[k] = string(b)
+		}
+	}
+	if r.Intn(3) == 0 {
+		// the model object is used on another alignment (other base composition, other length) beforehand
+		wl := 3 + r.Intn(12)
+		cs.warm = make([]string, 2+r.Intn(3))
+		pool := []string{"AAAC", "ACGT", "GGGCT", "TTTTA"}[r.Intn(4)]
+		for k := range cs.warm {
+			cs.warm[k] = randSeq(r, wl, func(r *rand.Rand) byte { return pool[r.Intn(len(pool))] })
+		}
 	}
 	cs.gamma = r.Intn(3) == 0
 	cs.alpha = []dyadic{{1, 2}, {1, 1}, {2, 1}, {3, 4}}[r.Intn(4)]
